@@ -460,11 +460,16 @@ func (self *FieldMask) hasChild() bool {
 	return self.typ != 0 && (self.all != nil || self.fdMask != nil || self.intMask != nil || self.strMask != nil)
 }
 
+// complete tells that a path ends at this mask (no '*' continuation below it)
+func (self *FieldMask) complete() bool {
+	return self.isAll && self.all == nil
+}
+
 func (self *FieldMask) ret(fm *FieldMask) (*FieldMask, bool) {
 	if self.isBlack {
 		// black list, only not-exist children or
 		// existing mediate children can pass
-		return fm, fm == nil || fm.hasChild()
+		return fm, fm == nil || (fm.hasChild() && !fm.complete())
 	} else {
 		// white-list, only exist child can pass
 		return fm, fm != nil
@@ -477,7 +482,11 @@ func (self *FieldMask) Field(id int16) (*FieldMask, bool) {
 		return nil, true
 	}
 	if self.isAll {
-		return self.all, !self.isBlack || self.hasChild()
+		if self.all == nil {
+			// a path ends here: everything below is selected (white) / rejected (black)
+			return nil, !self.isBlack
+		}
+		return self.ret(self.all)
 	}
 	fm := self.fdMask.Get(fieldID(id))
 	return self.ret(fm)
@@ -489,7 +498,11 @@ func (self *FieldMask) Int(id int) (*FieldMask, bool) {
 		return nil, true
 	}
 	if self.isAll {
-		return self.all, !self.isBlack || self.hasChild()
+		if self.all == nil {
+			// a path ends here: everything below is selected (white) / rejected (black)
+			return nil, !self.isBlack
+		}
+		return self.ret(self.all)
 	}
 	fm := self.intMask.Get(id)
 	return self.ret(fm)
@@ -501,7 +514,11 @@ func (self *FieldMask) Str(id string) (*FieldMask, bool) {
 		return nil, true
 	}
 	if self.isAll {
-		return self.all, !self.isBlack || self.hasChild()
+		if self.all == nil {
+			// a path ends here: everything below is selected (white) / rejected (black)
+			return nil, !self.isBlack
+		}
+		return self.ret(self.all)
 	}
 	fm := self.strMask.Get(id)
 	return self.ret(fm)
